@@ -81,6 +81,8 @@ def stored_in_plane_order(ctx, rule, sfx, s, which):
     b = s.body
     if which == 'direct':
         ext = [e for e in s.ip.events if e.body is b and e.callee and e.callee.endswith('::extend') and not e.in_loop]
+        if not ext:
+            return stored_by_push_loop(ctx, rule, sfx, s, which)
         if len(ext) != 1:
             raise AnalysisIncomplete('extend calls storing the faces: %d' % len(ext))
         tgt = repr(ext[0].fargs[0])
@@ -95,6 +97,45 @@ def stored_in_plane_order(ctx, rule, sfx, s, which):
         ok = nm == ['collect', 'map', 'flatten', 'into_iter'] and repr(src).startswith('phi')
         ctx.check(rule, '%s:all-created-integrals-returned%s' % (which, sfx), ok, '%s over %s' % (' <- '.join(nm), repr(src)[:40]),
                   'collect(map(flatten(into_iter(slots)), finalize))', where(b), key_extra='store')
+
+
+def stored_by_push_loop(ctx, rule, sfx, s, which):
+    """The explicit form: `for slot in slots { if let Some(f) = slot { faces.push(f.finalize()) } }`."""
+    b = s.body
+    push = [e for e in s.ip.events if e.body is b and e.callee and e.callee.endswith('Vec::<T, A>::push') and e.in_loop]
+    if len(push) != 1:
+        raise AnalysisIncomplete('calls storing the faces: 0 extend, %d push in a loop' % len(push))
+    pe = push[0]
+    tk = I.vkey(pe.fargs[0])
+    Ls = [(L, x) for L in s.ip.loops if L['body'] is b for x in L.get('ext', ()) if x['cell'] is s.out_ref.lv.cell and I.vkey(I.frozen(x['phi'])) == tk]
+    nx = [e for e in next_events(s.ip, b) if e is not s.next and e.in_loop]
+    if len(Ls) != 1 or len(nx) != 1:
+        raise AnalysisIncomplete('push loop storing the faces not identified (%d loops writing the output vector, %d stream reads)' % (len(Ls), len(nx)))
+    L, x = Ls[0]
+    L2, i = loop_record_of(s.ip, nx[0])
+    ch, src = stream_chain(I.frozen(L2['init'][i]))
+    nm = [n for n, _ in ch]
+    item = I.get_field(I.downcast(nx[0].result, 'Some'), 0)
+
+    def val(leaf):
+        d = dtab.is_discr_eq(leaf)
+        if d is not None:
+            if repr(d[0]) == repr(I.frozen(nx[0].result)):
+                return (d[1] == 1) == d[2]
+            if repr(d[0]) == repr(I.frozen(item)):
+                return ((d[1] == 1) == d[2]) == some
+        raise AnalysisIncomplete('push of a finalized face depends on %r' % (leaf,))
+    g = pe.guard
+    some = True
+    reached_some = dtab.conj(g, val)
+    some = False
+    reached_none = dtab.conj(g, val)
+    want_arg = 'call:voronoi::voronoi_face::VoronoiFace::finalize(%s.Some.0)' % repr(I.frozen(item))
+    ok = (L is L2 and repr(I.frozen(x['init'])) == 'faces' and nm == ['into_iter'] and repr(src).startswith('phi') and reached_some and not reached_none
+          and repr(pe.fargs[1]) == want_arg and len(x['back']) >= 1)
+    ctx.check(rule, '%s:all-created-faces-stored%s' % (which, sfx), ok,
+              'loop over %s of %s pushing %s when the slot is Some=%s/None=%s' % (' <- '.join(nm), repr(src)[:40], repr(pe.fargs[1])[:80], reached_some, reached_none),
+              'every created face finalized and appended once, in plane order', where(b, pe.line), key_extra='store')
 
 
 def r1(ctx, F, rule, sfx):
